@@ -15,6 +15,7 @@ EXPLANATION = ('(1) proof-style path rules: records are applied in replay only a
                'panic-capable construct (unwrap/expect, slice/array indexing, explicit panics; arithmetic overflow checks of debug builds excluded) in '
                'the call closure of the pre-checksum pass is auto-discharged by constant reasoning, discharged by a structural guard obligation, or '
                'listed in a reviewed table with its reason; an unlisted site is reported.')
+EXPLANATION += ' Added: end of data is recognised only by UnexpectedEof of a complete-header read; an action is validated against the table it names; first record id arithmetic saturates; known findings F33 (validation has side effects) and F35 (replay baseline not persistent).'
 ASSUMPTIONS = ['arithmetic-overflow assertions (debug builds only) are not audited; release builds wrap',
                'the reviewed table entries are justified by reading (each carries its reason)',
                'content of the recovered prefix is not decided', 'unwind edges ignored']
